@@ -675,7 +675,9 @@ class SurfaceArea2D(Property2D):
             drho += m * (a_ * np.cos(m * ph) - b_ * np.sin(m * ph))
         exp = inputs["radius"] * float(np.sum(np.hypot(rho, drho))) * 2 * np.pi / M
         got = float(d.surface_area)
-        ok = math.isclose(got, exp, rel_tol=1e-6)
+        # the library integrates with a fixed number of points: for 8 amplitudes up to 0.3 (shapes that almost pinch off) its error reaches
+        # 4e-5 relative (measured over 3000 shapes); 2e-4 leaves a margin and is far below any change of the integrand itself
+        ok = math.isclose(got, exp, rel_tol=2e-4)
         return dict(violated=[] if ok else ["surface area equals the arc length of the interface-distance curve"],
                     observed=got, expected=exp, inputs=inputs)
 
